@@ -8,9 +8,11 @@ from pyvc.dsl import *
 
 Data = Opaque("Data")
 SMeta = Rec("StateMeta", dict(status=Str, query=Str, is_error=Bool, caching=Bool, created=Str, filename=Opt(Str), extension=Str,
-                              vars=Opaque("Vars"), log=Seq(Opaque("Any")), volatile=Bool, message=Str, mimetype=Opt(Str)))
+                              vars=Opaque("Any"), log=Seq(Opaque("Any")), volatile=Bool, message=Str, mimetype=Opt(Str), type_identifier=Opt(Str), commands=Seq(Opaque("Any")),
+                              extended_commands=Seq(Opaque("Any")), attributes=Opaque("Any")))
 
-classdef("liquer.state.State", fields=dict(data=Data, metadata=SMeta, metadata_only=Bool, exception=Opt(Opaque("Exc"))))
+classdef("liquer.state.State", fields=dict(data=Data, metadata=SMeta, metadata_only=Bool, exception=Opt(Opaque("Exc")),
+                                            context=Opaque("Any"), status=Opaque("Any")))
 classdef("Cache", abstract=True, fields=dict(cmeta=Map(Str, SMeta), cdata=Map(Str, Data)))
 classdef("liquer.cache.MemoryCache", bases=["Cache"], fields=dict(storage=Map(Str, Ref("State"))))
 classdef("liquer.cache.CacheCombine", bases=["Cache"], fields=dict(cache1=Ref("Cache"), cache2=Ref("Cache")))
